@@ -519,8 +519,11 @@ func genEntityLocal(outDir string) (string, error) {
 	}
 	var notes []string
 
-	// the helpers of the use-case data type, from the model package's sources
+	// the helpers of the use-case data type: every method declared on NodeManagementUseCaseDataType (pointer or
+	// value receiver, whatever the receiver variable is called) in ANY non-test file of package model — located by
+	// what they are, not by the file they happen to live in
 	elModelUC = map[string]bool{}
+	ucMethods := map[string]*ast.FuncDecl{}
 	{
 		mdir := filepath.Join(RepoDir(), "model")
 		ments, err := os.ReadDir(mdir)
@@ -529,21 +532,45 @@ func genEntityLocal(outDir string) (string, error) {
 		}
 		for _, e := range ments {
 			n := e.Name()
-			if e.IsDir() || !strings.HasSuffix(n, ".go") || strings.HasSuffix(n, "_test.go") || !strings.Contains(n, "nodemanagement") {
+			if e.IsDir() || !strings.HasSuffix(n, ".go") || strings.HasSuffix(n, "_test.go") {
 				continue
 			}
-			f, err := parser.ParseFile(fset, filepath.Join(mdir, n), nil, 0)
+			f, err := parser.ParseFile(fset, filepath.Join(mdir, n), nil, parser.SkipObjectResolution)
 			if err != nil {
 				return "", err
 			}
 			for _, d := range f.Decls {
 				if x, ok := d.(*ast.FuncDecl); ok && elRecvType(x) == "NodeManagementUseCaseDataType" {
 					elModelUC[x.Name.Name] = true
+					ucMethods[x.Name.Name] = x
 				}
 			}
 		}
 		if len(elModelUC) == 0 {
-			notes = append(notes, "no method of model.NodeManagementUseCaseDataType found in model/*nodemanagement*.go")
+			notes = append(notes, "no method of model.NodeManagementUseCaseDataType found in package model")
+		}
+	}
+	// which operation of the registry a helper is: by its SIGNATURE (the five have five different ones), so that a
+	// renamed helper keeps its role; when a signature is shared by several methods the known name decides
+	helperName := map[string]int{"AddUseCaseSupport": 1, "SetAvailability": 2, "RemoveUseCaseSupport": 3, "RemoveUseCaseDataForAddress": 4, "HasUseCaseSupport": 5}
+	helperCode := map[string]int{}
+	{
+		byClass := map[int][]string{}
+		for name, fd := range ucMethods {
+			if c := elUCSigClass(fd); c != 0 {
+				byClass[c] = append(byClass[c], name)
+			}
+		}
+		for c, names := range byClass {
+			if len(names) == 1 {
+				helperCode[names[0]] = c
+				continue
+			}
+			for _, name := range names {
+				if helperName[name] == c {
+					helperCode[name] = c
+				}
+			}
 		}
 	}
 
@@ -552,7 +579,6 @@ func genEntityLocal(outDir string) (string, error) {
 	locked := map[string]bool{}
 	lockOf := map[string]string{}
 	helperOf := map[string]string{}
-	helperCode := map[string]int{"AddUseCaseSupport": 1, "SetAvailability": 2, "RemoveUseCaseSupport": 3, "RemoveUseCaseDataForAddress": 4}
 	for _, name := range ucOps {
 		tr := elTrace(funcs, "EntityLocal."+name)
 		var cs []elEvent
@@ -652,7 +678,7 @@ func genEntityLocal(outDir string) (string, error) {
 				names[e.detail] = true
 			}
 		}
-		hasReadOnly = nCopy > 0 && nStore == 0 && len(names) == 1 && names["HasUseCaseSupport"]
+		hasReadOnly = nCopy > 0 && nStore == 0 && len(names) == 1 && helperCode[sortedKeys(names)[0]] == 5
 		if !hasReadOnly {
 			notes = append(notes, fmt.Sprintf("HasUseCaseSupport: copies %d, stores %d, helpers %v", nCopy, nStore, sortedKeys(names)))
 		}
@@ -764,7 +790,7 @@ func genEntityLocal(outDir string) (string, error) {
 		fmt.Fprintf(&b, "/-- %s: every DataCopy and SetData it performs (directly or through helpers) lies inside one critical section of a package-level mutex -/\ndef locked%s : Bool := %v\n\n", name, name, locked[name])
 	}
 	for _, name := range ucOps {
-		fmt.Fprintf(&b, "/-- %s: the helper of model.NodeManagementUseCaseDataType it applies to the copy, after the copy and before the store inside the lock hold (1 AddUseCaseSupport, 2 SetAvailability, 3 RemoveUseCaseSupport, 4 RemoveUseCaseDataForAddress; 0 = none, several, another one, or outside) — found: %q -/\ndef helper%s : Nat := %d\n\n", name, helperOf[name], name, helperCode[helperOf[name]])
+		fmt.Fprintf(&b, "/-- %s: the helper of model.NodeManagementUseCaseDataType it applies to the copy, after the copy and before the store inside the lock hold (1 AddUseCaseSupport, 2 SetAvailability, 3 RemoveUseCaseSupport, 4 RemoveUseCaseDataForAddress; 0 = none, several, another one, or outside) — found: %q -/\ndef helper%s : Nat := %d\n\n", name, helperOf[name], name, rmwCode(helperCode[helperOf[name]]))
 	}
 	fmt.Fprintf(&b, "/-- HasUseCaseSupport: copies the data, asks the helper HasUseCaseSupport of the data type, stores nothing -/\ndef hasUseCaseSupportReadOnly : Bool := %v\n\n", hasReadOnly)
 	fmt.Fprintf(&b, "/-- GetOrAddFeature: every search of the feature list by type and role it performs (first lookup and re-check) happens under a mutex of the entity -/\ndef getOrAddSearchesLocked : Bool := %v\n\n", searchesLocked)
@@ -780,8 +806,83 @@ func genEntityLocal(outDir string) (string, error) {
 	}
 	return fmt.Sprintf("useCaseMuxPackageLevel=%v locked=%v/%v/%v/%v helpers=%d/%d/%d/%d hasReadOnly=%v creationLocked=%v rechecks=%v searchesLocked=%v nextFeatureIdLocked=%v",
 		pkgLevel, locked[ucOps[0]], locked[ucOps[1]], locked[ucOps[2]], locked[ucOps[3]],
-		helperCode[helperOf[ucOps[0]]], helperCode[helperOf[ucOps[1]]], helperCode[helperOf[ucOps[2]]], helperCode[helperOf[ucOps[3]]], hasReadOnly,
+		rmwCode(helperCode[helperOf[ucOps[0]]]), rmwCode(helperCode[helperOf[ucOps[1]]]), rmwCode(helperCode[helperOf[ucOps[2]]]), rmwCode(helperCode[helperOf[ucOps[3]]]), hasReadOnly,
 		creationLocked, rechecks, searchesLocked, nextLocked), nil
+}
+
+// rmwCode: the read-only helper (5) is not one of the four read-modify-write helpers
+func rmwCode(c int) int {
+	if c >= 1 && c <= 4 {
+		return c
+	}
+	return 0
+}
+
+// elUCSigClass classifies a method of the use-case data type by its signature:
+// 1 (address, actor, name, further data … including a list) — add;  2 (address, actor, name, bool) — set availability;
+// 3 (address, actor, name) — remove;  4 (address) — remove all of an address;  5 (address, actor, name) bool — has;
+// 0 anything else. Type names are those of package model (exported API of the data model).
+func elUCSigClass(fd *ast.FuncDecl) int {
+	var ps []string
+	if fd.Type.Params != nil {
+		for _, f := range fd.Type.Params.List {
+			t := strings.TrimPrefix(exprString(f.Type), "*")
+			if _, ok := f.Type.(*ast.ArrayType); ok {
+				t = "[]"
+			} else if _, ok := f.Type.(*ast.Ellipsis); ok {
+				t = "[]"
+			}
+			n := len(f.Names)
+			if n == 0 {
+				n = 1
+			}
+			for i := 0; i < n; i++ {
+				ps = append(ps, t)
+			}
+		}
+	}
+	var rs []string
+	if fd.Type.Results != nil {
+		for _, f := range fd.Type.Results.List {
+			n := len(f.Names)
+			if n == 0 {
+				n = 1
+			}
+			for i := 0; i < n; i++ {
+				rs = append(rs, exprString(f.Type))
+			}
+		}
+	}
+	count := func(t string) int {
+		c := 0
+		for _, p := range ps {
+			if p == t {
+				c++
+			}
+		}
+		return c
+	}
+	if count("FeatureAddressType") != 1 {
+		return 0
+	}
+	key := count("UseCaseActorType") == 1 && count("UseCaseNameType") == 1
+	switch {
+	case len(ps) == 1 && len(rs) == 0:
+		return 4
+	case key && len(ps) == 3 && len(rs) == 0:
+		return 3
+	case key && len(ps) == 3 && len(rs) == 1 && rs[0] == "bool":
+		return 5
+	case key && len(ps) == 4 && count("bool") == 1 && len(rs) == 0:
+		return 2
+	case key && len(ps) > 4 && len(rs) == 0:
+		for _, p := range ps {
+			if strings.HasPrefix(p, "[]") {
+				return 1
+			}
+		}
+	}
+	return 0
 }
 
 func sortedKeys(m map[string]bool) []string {
